@@ -487,6 +487,8 @@ type overlay struct {
 	Replace map[string]string
 }
 
+var usesTryLock bool
+
 func main() {
 	repo := flag.String("repo", "/repo", "repository root")
 	verif := flag.String("verif", "/verif", "verif root")
@@ -543,6 +545,9 @@ func main() {
 			}
 			hdr := fmt.Sprintf("// Code generated by /verif/tools/instr from %s; DO NOT EDIT.\n\n", fname)
 			src := buf.Bytes()
+			if bytes.Contains(src, []byte(".TryLock()")) || bytes.Contains(src, []byte(".TryRLock()")) {
+				usesTryLock = true
+			}
 			// keep build constraints first
 			if err := os.WriteFile(dst, insertHeader(src, hdr), 0o644); err != nil {
 				die("%v", err)
@@ -564,6 +569,18 @@ func main() {
 		ov.Replace[filepath.Join(*repo, "zzvsched", rel)] = p
 		return nil
 	})
+	// features of the code under test the scheduler adapts to: code that uses TryLock can observe a mutex as
+	// held without blocking, so a holder must be preemptible inside its critical section
+	{
+		dir := filepath.Join(*out, "features")
+		_ = os.MkdirAll(dir, 0o755)
+		dst := filepath.Join(dir, "zz_features.go")
+		body := fmt.Sprintf("// Code generated by /verif/tools/instr; DO NOT EDIT.\n\npackage zzvsched\n\nfunc init() { yieldWhileHolding = %v }\n", usesTryLock)
+		if err := os.WriteFile(dst, []byte(body), 0o644); err != nil {
+			die("%v", err)
+		}
+		ov.Replace[filepath.Join(*repo, "zzvsched", "zz_features.go")] = dst
+	}
 	// legacy XOR implementation (build constraint lifted) as a virtual package
 	{
 		dir := filepath.Join(*out, "xorold")
